@@ -32,6 +32,24 @@ import (
 // c03GuaranteeGate switches the alpha feature gate ElasticQuotaGuaranteeUsage on for the rest of the case (the helper the
 // package's own tests use) and tells the model (`gate 1`: quota objects yield allow-lent = false).  The property does not
 // mention the gate: every oracle clause - the non-preemptible bound = the DECLARED min in particular - stays as it is.
+// c03GateRTFinding: open known finding - with the gate ElasticQuotaGuaranteeUsage AND the runtime quota on, a group's runtime
+// has the floor Guaranteed = max(Allocated, min) and can exceed the group's max; pods are then admitted above max.
+const c03GateRTFinding = "C03:limit-exceeded:guarantee-gate-runtime"
+
+// limFP: the fingerprint of a limit clause (runtime-above-max, used-above-max, admitted-over-limit:*).  While the gate and
+// the runtime quota are both on every failure of such a clause is reported under the one fingerprint of the known
+// finding; with the gate off or the runtime quota off the generic fingerprint stays (a seeded change is a plain VIOLATION).
+func (w *c03World) limFP(generic string) string {
+	if w.gu && w.cfgRT {
+		return c03GateRTFinding
+	}
+	return generic
+}
+
+// c03ForceGateRT: c03Case runs with the gate and the runtime quota on whatever its index says (the handful of random
+// gate + runtime cases that harness guarantee runs by default).
+var c03ForceGateRT bool
+
 // c03GateRT: run the gated cases also with the runtime quota on (off by default, see c03Case).
 func c03GateRT() bool { return os.Getenv("VERIF_C03_GATE_RT") == "1" }
 
@@ -1073,7 +1091,7 @@ func (w *c03World) dump() {
 		if w.cfgCP || !w.hasChild(id) {
 			for d := 0; d < c03D; d++ {
 				if q.max.has[d] && u.v[d] > q.max.v[d] {
-					w.h.Fail("C03:used-above-max", "group %d dim %d used %d > max %d (rt=%v cp=%v; children's min sums webhook-legal: %v)", id, d, u.v[d], q.max.v[d], w.cfgRT, w.cfgCP, w.minSumsLegal())
+					w.h.Fail(w.limFP("C03:used-above-max"), "group %d dim %d used %d > max %d (rt=%v cp=%v; children's min sums webhook-legal: %v)", id, d, u.v[d], q.max.v[d], w.cfgRT, w.cfgCP, w.minSumsLegal())
 				}
 			}
 		}
@@ -1143,7 +1161,7 @@ func (w *c03World) attempt(p *c03Pod) bool {
 				if !full.has[d] || !limMasked[g].has[d] {
 					w.h.Fail("C03:missing-dimension", "runtime of group %d lacks declared dim %d", g, d)
 				} else if full.v[d] > q.max.v[d] {
-					w.h.Fail("C03:runtime-above-max", "group %d dim %d runtime %d > max %d (stream %s; children's min sums webhook-legal: %v)", g, d, full.v[d], q.max.v[d], w.stream, w.minSumsLegal())
+					w.h.Fail(w.limFP("C03:runtime-above-max"), "group %d dim %d runtime %d > max %d (stream %s; children's min sums webhook-legal: %v)", g, d, full.v[d], q.max.v[d], w.stream, w.minSumsLegal())
 				}
 			}
 		}
@@ -1196,9 +1214,9 @@ func (w *c03World) attempt(p *c03Pod) bool {
 					if i == 0 && w.special[g] && w.cfgRT {
 						w.h.Fail("C03:default-quota-unlimited-in-runtime-mode", "pod %d admitted to %s in runtime mode: dim %d used %d + req %d > max %d (its Runtime list is empty)", p.id, c03QName(g), d, used[d], m[d], lim.v[d])
 					} else if i == 0 {
-						w.h.Fail("C03:admitted-over-limit:leaf", "pod %d admitted: group %d dim %d used %d + req %d > limit %d (rt=%v)", p.id, g, d, used[d], m[d], lim.v[d], w.cfgRT)
+						w.h.Fail(w.limFP("C03:admitted-over-limit:leaf"), "pod %d admitted: group %d dim %d used %d + req %d > limit %d (rt=%v)", p.id, g, d, used[d], m[d], lim.v[d], w.cfgRT)
 					} else if m[d] > 0 {
-						w.h.Fail("C03:admitted-over-limit:ancestor", "pod %d admitted: ancestor %d dim %d used %d + req %d > limit %d (rt=%v)", p.id, g, d, used[d], m[d], lim.v[d], w.cfgRT)
+						w.h.Fail(w.limFP("C03:admitted-over-limit:ancestor"), "pod %d admitted: ancestor %d dim %d used %d + req %d > limit %d (rt=%v)", p.id, g, d, used[d], m[d], lim.v[d], w.cfgRT)
 					} else {
 						// ancestor already above its (shrunk) limit in a dimension this pod does not add to
 						w.h.Tag("deviation:ancestor-over-limit-in-zero-request-dim")
@@ -1290,14 +1308,14 @@ func c03Case(t *testing.T, h *vHarness, idx int, steps int) {
 	// (every second block of four cases that run with the runtime quota off = a quarter of all cases, every switch
 	// combination of them).  Gate on + runtime quota ON is off by default: there the unchanged tree breaks RuntimeOK
 	// (C03:runtime-above-max, then C03:used-above-max; see props/C03.json level_note) - VERIF_C03_GATE_RT=1 switches it on.
-	gu := (idx>>2)&1 == 1 && (idx&1 == 0 || c03GateRT())
+	gu := ((idx>>2)&1 == 1 && (idx&1 == 0 || c03GateRT())) || c03ForceGateRT
 	h.Op("dims %d", c03D)
 	defer c03GuaranteeGate(t, h, gu)()
 	suit := newPluginTestSuit(t, nil)
 	var lvl klog.Level
 	_ = lvl.Set("0")
 	gp := suit.createPlugin(t).(*Plugin)
-	w := &c03World{t: t, h: h, gp: gp, cfgRT: idx&1 == 1, cfgCP: idx&2 == 2, quotas: map[int]*c03Quota{}, pods: map[int]*c03Pod{}, gu: gu}
+	w := &c03World{t: t, h: h, gp: gp, cfgRT: idx&1 == 1 || c03ForceGateRT, cfgCP: idx&2 == 2, quotas: map[int]*c03Quota{}, pods: map[int]*c03Pod{}, gu: gu}
 	gp.pluginArgs.EnableRuntimeQuota = w.cfgRT
 	gp.pluginArgs.EnableCheckParentQuota = w.cfgCP
 	stream := "main"
@@ -1632,13 +1650,102 @@ func TestVerifC03Guarantee(t *testing.T) {
 	c03Names = nil
 	n := h.N(24, 240)
 	for idx := 0; idx < n; idx++ {
-		c03GuaranteeCase(t, h, idx)
+		switch {
+		case idx == 2 || idx == 3:
+			c03GateRTDirected(t, h, idx)
+		case idx >= 4 && idx < 10:
+			// a handful of histories of harness plugin (40 events) with the gate AND the runtime quota on
+			c03ForceGateRT = true
+			c03Case(t, h, idx, 40)
+			c03ForceGateRT = false
+		default:
+			c03GuaranteeCase(t, h, idx)
+		}
 	}
-	h.Close("feature gate ElasticQuotaGuaranteeUsage on in every case; root <- 1 (is-parent) <- {2,3} or root <- {2,3}; min well below max; 26 events: " +
+	h.Close("cases 2-3: the two directed histories of known finding C03:limit-exceeded:guarantee-gate-runtime (gate + runtime quota + parent checking on: " +
+		"runtime above max by a child's min; a pod admitted above max); cases 4-9: histories of harness plugin (40 events) with gate + runtime quota on, limit " +
+		"clauses reported under that one fingerprint; all other cases: feature gate ElasticQuotaGuaranteeUsage on in every case; root <- 1 (is-parent) <- {2,3} or root <- {2,3}; min well below max; 26 events: " +
 		"scheduling cycles (PreFilter, Reserve iff admitted) of new pods - preemptible ones first, non-preemptible ones (2/3) once a group's used " +
 		"passed its min -, Unreserve, OnPodDelete, min / max raise; check-parent = case index mod 2, runtime quota off (on for odd idx/2 only with " +
 		"VERIF_C03_GATE_RT=1); cases 0-1 are directed: min cpu 2, max cpu 12, preemptible pods use cpu 6, two non-preemptible pods of cpu 2 (the second must be " +
 		"rejected for min: 4 > 2, although used 8 + 2 is within max); non-trivial = a non-preemptible pod rejected for min while its group's used exceeds min; distinct by op lines")
+}
+
+// c03GateRTDirected: the two concrete histories of known finding C03:limit-exceeded:guarantee-gate-runtime (found by harness
+// plugin at seed 1 with VERIF_C03_GATE_RT=1), gate, runtime quota and parent checking on.
+//
+//	idx 2: group 1 (is-parent, max memory 10, min memory 3) <- group 2 (max memory 12, min memory 12); a pod of group 2 asks for
+//	       admission: runtime of group 1 = memory 12 > max 10
+//	idx 3: group 1 (is-parent) <- group 3 (is-parent, max memory 2, min memory 1) <- group 5 (min memory 4): runtime of group 3 =
+//	       memory 4; a pod asking memory 4 in group 3 itself is admitted and reserved: used memory 4 > max 2
+func c03GateRTDirected(t *testing.T, h *vHarness, idx int) {
+	r := h.Begin(idx)
+	if r == nil {
+		return
+	}
+	defer h.End()
+	h.Op("dims %d", c03D)
+	defer c03GuaranteeGate(t, h, true)()
+	suit := newPluginTestSuit(t, nil)
+	var lvl klog.Level
+	_ = lvl.Set("0")
+	gp := suit.createPlugin(t).(*Plugin)
+	w := &c03World{t: t, h: h, gp: gp, cfgRT: true, cfgCP: true, quotas: map[int]*c03Quota{}, pods: map[int]*c03Pod{},
+		stream: "gate-rt-directed", closedLoop: true, gu: true}
+	gp.pluginArgs.EnableRuntimeQuota = true
+	gp.pluginArgs.EnableCheckParentQuota = true
+	h.Tag("stream:gate-rt-directed")
+	h.Tag("switches:rt1-cp1")
+	rl := func(h0, h1, h2 bool, v0, v1, v2 int64) c03RL {
+		return c03RL{has: [c03D]bool{h0, h1, h2}, v: [c03D]int64{v0, v1, v2}}
+	}
+	var capacity c03RL
+	var order []int
+	var pod *c03Pod
+	if idx == 2 {
+		capacity = rl(true, true, true, 19500, 23, 5)
+		w.quotas[1] = &c03Quota{id: 1, isParent: true, lent: true, max: rl(true, true, true, 4500, 10, 2), min: rl(true, true, true, 0, 3, 1)}
+		w.quotas[2] = &c03Quota{id: 2, parent: 1, lent: true, max: rl(true, true, true, 6500, 12, 2), min: rl(false, true, true, 0, 12, 0)}
+		order = []int{1, 2}
+		pod = &c03Pod{id: 1, quota: 2, req: rl(true, true, true, 250, 1, 1)}
+	} else {
+		capacity = rl(true, true, true, 3000, 11, 7)
+		w.quotas[1] = &c03Quota{id: 1, isParent: true, lent: true, max: rl(true, true, true, 7500, 14, 1), min: rl(false, true, true, 0, 12, 1)}
+		w.quotas[3] = &c03Quota{id: 3, parent: 1, isParent: true, lent: true, max: rl(true, true, true, 4500, 2, 1), min: rl(false, true, true, 0, 1, 0)}
+		w.quotas[5] = &c03Quota{id: 5, parent: 3, isParent: true, lent: true, max: rl(true, false, true, 3500, 0, 4), min: rl(false, true, true, 0, 4, 0)}
+		order = []int{1, 3, 5}
+		pod = &c03Pod{id: 2, quota: 3, req: rl(false, true, true, 0, 4, 0)}
+	}
+	w.rv++
+	h.Op("cap %s", vInts(capacity.v[:]))
+	gp.OnNodeAdd(c03Node(capacity, w.rv))
+	w.dump()
+	for _, id := range order {
+		w.setQuota(w.quotas[id])
+	}
+	pod.obj = c03MakePod(r, pod)
+	w.pods[pod.id] = pod
+	h.Op("poddef %d %d %d %s", pod.id, pod.quota, vB(pod.np), pod.req.toks())
+	w.dump()
+	h.Op("podadd %d", pod.id)
+	gp.OnPodAdd(pod.obj)
+	pod.inCache = true
+	w.dump()
+	if !w.attempt(pod) {
+		return
+	}
+	h.Nontrivial()
+	h.Op("res %d", pod.id)
+	var st *fwktype.Status
+	if h.Guard(func() { st = gp.Reserve(context.TODO(), framework.NewCycleState(), pod.obj, "n1") }) {
+		h.Obs("panic")
+		return
+	}
+	if !st.IsSuccess() {
+		h.Fail("C03:reserve-failed", "Reserve returned %v", st.Code())
+	}
+	pod.assigned = true
+	w.dump()
 }
 
 func c03GuaranteeCase(t *testing.T, h *vHarness, idx int) {
